@@ -45,11 +45,10 @@ impl<'i, 't, 'a> StepParser<'i, 't, 'a> {
     ) -> Result<StepToken<'i>, BasicParseError<'i>> {
         #[cfg(feature = "verif_hooks")]
         crate::verif_hooks::step();
-        let position = self.position();
         let state = self.parser.state();
-        let ret = self.parser.next_including_whitespace().map(|x| x.clone());
+        let ret = self.next_including_whitespace();
         self.parser.reset(&state);
-        ret.map(|token| StepToken { token, position })
+        ret
     }
 
     pub(crate) fn next(&mut self) -> Result<StepToken<'i>, BasicParseError<'i>> {
@@ -62,9 +61,18 @@ impl<'i, 't, 'a> StepParser<'i, 't, 'a> {
     ) -> Result<StepToken<'i>, BasicParseError<'i>> {
         #[cfg(feature = "verif_hooks")]
         crate::verif_hooks::step();
-        let position = self.position();
-        let token = self.parser.next_including_whitespace().map(|x| x.clone())?;
-        Ok(StepToken { token, position })
+        loop {
+            // (comments are skipped here, so that the position is the start of the token itself)
+            let position = self.position();
+            let token = self
+                .parser
+                .next_including_whitespace_and_comments()
+                .map(|x| x.clone())?;
+            if let Token::Comment(_) = token {
+                continue;
+            }
+            return Ok(StepToken { token, position });
+        }
     }
 
     pub(crate) fn try_parse<F, T, E>(&mut self, thing: F) -> Result<T, E>
